@@ -75,6 +75,10 @@ def make_file(r, layouts, expanded, enc, blocked, trailer=True, nrows=None):
             else:
                 data.append(ts10[:7] + act + subs[t] + body)
     r.shuffle(data)
+    if r.random() < 0.5:
+        # trailer rows of data tables (they are not the index trailer)
+        for t in r.sample(tids, 2):
+            data.insert(r.randrange(len(data) + 1), 'TRAILER RECORD %s  %08d' % (t, 7))
     if data and r.random() < 0.3:
         data.insert(r.randrange(len(data)), 'X' * r.randrange(0, 15))      # short junk row
     rows += data
